@@ -30,6 +30,7 @@ def run(tier, seed):
     ]
     nl, rq = (6, 40) if tier == "quick" else (80, 80)
     netcommon.corpus_stage(v, wd, seed, nl, rq)
+    vlib.scale_stage(v, wd, "C03")
     return v.finish("model_checking",
                     "every rule of {7 rule shapes} x {type-option sets} x {any,3p,1p} x {4 domain-list variants} as a single-rule "
                     "engine (optimised and not) and through NetworkMatchable::matches, against every request of "
